@@ -951,6 +951,9 @@ def install(R):
                           patterns=[rank(r)]))
         E.axiom(z3.ForAll([j], z3.Implies(z3.And(j >= 0, j < K), z3.And(inb(unrank(j)), fm.get(unrank(j)), rank(unrank(j)) == j)),
                           patterns=[unrank(j)]))
+        r0 = z3.Int(fresh_name("mr0"))
+        # corollary of the line above (0 <= rank(r) < K for a selected r), stated without the rank function so that it is found: no selected row when K = 0
+        E.axiom(z3.Implies(K <= 0, z3.ForAll([r0], z3.Implies(inb(r0), z3.Not(fm.get(r0))))))
         j2 = z3.Int(fresh_name("mj2"))
         E.axiom(z3.ForAll([j, j2], z3.Implies(z3.And(j >= 0, j < j2, j2 < K), unrank(j) < unrank(j2)), patterns=[z3.MultiPattern(unrank(j), unrank(j2))]),
                 requested=False)      # order preservation: only tried in the last solver stage (rarely needed, costly to instantiate)
